@@ -390,6 +390,7 @@ func (g *G) astate(s *ASpec) *AState {
 			// nested structure an action can reach into (in-place mutation below the top level)
 			st.Bs[g.pick(bindKeys)] = []interface{}{map[string]interface{}{"q": g.num()}, g.scalar()}
 		}
+		g.bindThresholds(s, st)
 		if g.mode == "c18" {
 			for n := 1 + g.intn(2); n > 0; n-- {
 				if g.chance(0.4) {
@@ -428,12 +429,67 @@ func (st *AState) coq() string {
 }
 
 // messageFor: a pending message likely to match one of the node's branches
-func (g *G) messageFor(s *ASpec, node string) interface{} {
+// ineqVarsOf collects the inequality-shaped variables ("?<n", "?>=m", ...) that occur in a pattern
+func ineqVarsOf(x interface{}, acc map[string]bool) {
+	switch v := x.(type) {
+	case string:
+		if len(v) > 2 && v[0] == '?' && (v[1] == '<' || v[1] == '>' || v[1] == '!') {
+			acc[v] = true
+		}
+	case []interface{}:
+		for _, y := range v {
+			ineqVarsOf(y, acc)
+		}
+	case map[string]interface{}:
+		for k, y := range v {
+			ineqVarsOf(k, acc)
+			ineqVarsOf(y, acc)
+		}
+	}
+}
+
+// bindThresholds: a state at a node whose branch patterns use inequality variables usually carries their numeric
+// bounds (that is what makes them inequalities); the counterpart stays free, so that the match binds it
+func (g *G) bindThresholds(s *ASpec, st *AState) {
+	nd := s.Nodes[st.Node]
+	if nd == nil || st.Bs == nil {
+		return
+	}
+	vars := map[string]bool{}
+	for _, b := range nd.Branches {
+		if b.HasPattern {
+			ineqVarsOf(b.Pattern, vars)
+		}
+	}
+	for _, v := range sortedKeys(boolsAsMap(vars)) {
+		if g.chance(0.7) {
+			st.Bs[v] = g.num()
+		}
+	}
+}
+
+func boolsAsMap(m map[string]bool) map[string]interface{} {
+	acc := make(map[string]interface{}, len(m))
+	for k := range m {
+		acc[k] = true
+	}
+	return acc
+}
+
+func (g *G) messageFor(s *ASpec, node string, sts ...*AState) interface{} {
 	nd := s.Nodes[node]
 	if nd != nil && nd.HasBranches && len(nd.Branches) > 0 && g.chance(0.75) {
 		b := nd.Branches[g.intn(len(nd.Branches))]
 		if b.HasPattern {
 			ctx := newPctx()
+			for _, st := range sts {
+				// numbers around the bounds the state carries
+				for k, v := range st.Bs {
+					if f, is := v.(float64); is && len(k) > 2 && k[0] == '?' && (k[1] == '<' || k[1] == '>' || k[1] == '!') {
+						ctx.ineqBound[k] = f
+					}
+				}
+			}
 			m := g.instantiate(b.Pattern, map[string]interface{}{}, ctx, true)
 			if g.chance(0.2) {
 				m = g.corrupt(m)
